@@ -103,6 +103,7 @@ type attemptScript struct {
 	closeBody bool // the handler closes the request body when done with it (http.Transport always does)
 	writeHow  int  // 0 Write, 1 io.WriteString, 2 io.Copy from a source with WriteTo, 3 fmt.Fprintf, 4 io.Copy from a plain reader per piece, 5 one io.Copy of the whole body from a reader that delivers it in those pieces
 	tryHijack bool // the handler first tries to take over the connection; the client's writer refuses or cannot, and it answers normally
+	lateHijack bool // after its writes the handler takes the connection over (granted by a client writer that allows it), speaks on it and returns
 	abort     bool // after its writes the handler aborts with panic(http.ErrAbortHandler), as a reverse proxy does when the backend breaks off
 }
 
@@ -131,6 +132,7 @@ type exchange struct {
 	breakAfter    int    // the client goes away after that many response body bytes (-1: stays)
 	writerKind    string // "", "hijack-refused" (HTTP/2, an already hijacked connection), "plain" (no Hijacker at all)
 	hijackGranted bool
+	lateHijacked  bool // a handler took the connection over after having written through the buffer
 	reader        *faultyReader
 	cancelled     bool
 	scripts       []attemptScript
@@ -265,6 +267,16 @@ func (ex *exchange) handler() http.Handler {
 				_, _ = fmt.Fprintf(w, "%s", chunk)
 			default:
 				_, _ = w.Write(chunk)
+			}
+		}
+		if sc.lateHijack {
+			if hj, ok := w.(http.Hijacker); ok {
+				if conn, _, err := hj.Hijack(); err == nil && conn != nil {
+					ex.lateHijacked = true
+					_, _ = conn.Write([]byte("spoken-on-the-hijacked-connection"))
+					_ = conn.Close()
+					return
+				}
 			}
 		}
 		if sc.abort {
